@@ -301,6 +301,56 @@ theorem key_imap {α : Type} (f : Nat → α → Record) (k : Key) (hk : ∀ j a
     · exact hk _ _
     · exact ih _ r hr
 
+/-- two records per entry (New Relic histogram buckets: count and per-second companion): the identities of
+the flattened pairs are those of the two single-record walks -/
+theorem count_imap_pair_sub {α : Type} (r1 r2 : Nat → α → Record) (x : Sub) (n : Nat) (l : List α) :
+    (((imap (fun j a => [r1 j a, r2 j a]) n l).flatten).map (·.sub)).count x =
+      ((imap r1 n l).map (·.sub)).count x + ((imap r2 n l).map (·.sub)).count x := by
+  induction l generalizing n with
+  | nil => simp [imap]
+  | cons a t ih =>
+    simp only [imap, List.flatten_cons, List.map_append, List.map_cons, List.map_nil, List.count_append,
+      List.count_cons, List.count_nil, ih (n + 1)]
+    omega
+
+/-- … with subs `mk1 j` / `mk2 j` (injective, disjoint ranges): each of the `2 * length` identities exactly once -/
+theorem count_imap_pair_fst {α : Type} (r1 r2 : Nat → α → Record) (mk1 mk2 : Nat → Sub)
+    (h1 : ∀ j a, (r1 j a).sub = mk1 j) (h2 : ∀ j a, (r2 j a).sub = mk2 j)
+    (hinj1 : ∀ i j, mk1 i = mk1 j → i = j) (hdisj : ∀ i j, mk1 i ≠ mk2 j) (n : Nat) (l : List α) (j0 : Nat) :
+    (((imap (fun j a => [r1 j a, r2 j a]) n l).flatten).map (·.sub)).count (mk1 j0) =
+      if n ≤ j0 ∧ j0 < n + l.length then 1 else 0 := by
+  rw [count_imap_pair_sub, count_imap_sub r1 mk1 h1 hinj1,
+    count_imap_sub_other r2 mk2 h2 _ (fun j e => hdisj j0 j e.symm)]
+  simp
+
+theorem count_imap_pair_snd {α : Type} (r1 r2 : Nat → α → Record) (mk1 mk2 : Nat → Sub)
+    (h1 : ∀ j a, (r1 j a).sub = mk1 j) (h2 : ∀ j a, (r2 j a).sub = mk2 j)
+    (hinj2 : ∀ i j, mk2 i = mk2 j → i = j) (hdisj : ∀ i j, mk1 i ≠ mk2 j) (n : Nat) (l : List α) (j0 : Nat) :
+    (((imap (fun j a => [r1 j a, r2 j a]) n l).flatten).map (·.sub)).count (mk2 j0) =
+      if n ≤ j0 ∧ j0 < n + l.length then 1 else 0 := by
+  rw [count_imap_pair_sub, count_imap_sub r2 mk2 h2 hinj2,
+    count_imap_sub_other r1 mk1 h1 _ (fun j e => hdisj j j0 e)]
+  simp
+
+theorem count_imap_pair_other {α : Type} (r1 r2 : Nat → α → Record) (mk1 mk2 : Nat → Sub)
+    (h1 : ∀ j a, (r1 j a).sub = mk1 j) (h2 : ∀ j a, (r2 j a).sub = mk2 j)
+    (x : Sub) (hx1 : ∀ j, mk1 j ≠ x) (hx2 : ∀ j, mk2 j ≠ x) (n : Nat) (l : List α) :
+    (((imap (fun j a => [r1 j a, r2 j a]) n l).flatten).map (·.sub)).count x = 0 := by
+  rw [count_imap_pair_sub, count_imap_sub_other r1 mk1 h1 _ hx1, count_imap_sub_other r2 mk2 h2 _ hx2]
+
+theorem key_imap_pair {α : Type} (r1 r2 : Nat → α → Record) (k : Key) (hk1 : ∀ j a, (r1 j a).key = k)
+    (hk2 : ∀ j a, (r2 j a).key = k) (n : Nat) (l : List α) :
+    ∀ r ∈ (imap (fun j a => [r1 j a, r2 j a]) n l).flatten, r.key = k := by
+  induction l generalizing n with
+  | nil => intro r hr; simp [imap] at hr
+  | cons a t ih =>
+    intro r hr
+    simp only [imap, List.flatten_cons, List.mem_append, List.mem_cons, List.not_mem_nil, or_false] at hr
+    rcases hr with (rfl | rfl) | hr
+    · exact hk1 _ _
+    · exact hk2 _ _
+    · exact ih _ r hr
+
 theorem timerSubs_nodup : timerSubs.Nodup := by decide
 
 theorem count_nodup {α : Type} [DecidableEq α] (l : List α) (h : l.Nodup) (x : α) :
@@ -436,7 +486,8 @@ theorem count_stdoutEmit (c : Cfg) (s : Series) (x : Sub) :
   · cases x <;> simp [List.count_cons]
   · cases x <;> simp [List.count_cons]
 
-theorem count_otlpEmit (c : Cfg) (hg : c.otlpHist = false) (s : Series) (x : Sub) :
+/-- otlp with timers as gauges -/
+theorem count_otlpEmit_gauges (c : Cfg) (hg : c.otlpHist = false) (s : Series) (x : Sub) :
     ((otlpEmit c s).map (·.sub)).count x = if enabledStd c.mask s x then 1 else 0 := by
   unfold otlpEmit enabledStd
   cases hk : s.kind <;> dsimp only
@@ -451,6 +502,99 @@ theorem count_otlpEmit (c : Cfg) (hg : c.otlpHist = false) (s : Series) (x : Sub
     | none => dsimp only; rw [count_plainTimer _ _ _ _ (by intro; rfl) (by intros; rfl)]; cases x <;> rfl
   · cases x <;> simp [List.count_cons]
   · cases x <;> simp [List.count_cons]
+
+/-- otlp with timers as one OTLP histogram each -/
+theorem count_otlpEmit_hist (c : Cfg) (hg : c.otlpHist = true) (s : Series) (x : Sub) :
+    ((otlpEmit c s).map (·.sub)).count x = if enabledOtlpHist s x then 1 else 0 := by
+  unfold otlpEmit enabledOtlpHist
+  cases hk : s.kind <;> dsimp only
+  · cases x <;> simp [List.count_cons]
+  · rw [if_pos hg]
+    cases x <;> simp [List.count_cons]
+  · cases x <;> simp [List.count_cons]
+  · cases x <;> simp [List.count_cons]
+
+/-- otlp, both values of `otlpHist` -/
+theorem count_otlpEmit (c : Cfg) (s : Series) (x : Sub) :
+    ((otlpEmit c s).map (·.sub)).count x = if enabledOtlp c s x then 1 else 0 := by
+  unfold enabledOtlp
+  cases hg : c.otlpHist
+  · simpa using count_otlpEmit_gauges c hg s x
+  · simpa using count_otlpEmit_hist c hg s x
+
+/-- New Relic, all three flush types -/
+theorem count_nrEmit (c : Cfg) (s : Series) (x : Sub) :
+    ((nrEmit c s).map (·.sub)).count x = if enabledNr c s x then 1 else 0 := by
+  have hb : ∀ i j, Sub.bucket i = Sub.bucket j → i = j := by intro i j h; injection h
+  have hp : ∀ i j, Sub.bucketPs i = Sub.bucketPs j → i = j := by intro i j h; injection h
+  unfold nrEmit enabledNr
+  cases hm : c.nrMode <;> cases hk : s.kind <;> dsimp only
+  -- infra
+  · cases x <;> simp [List.count_cons]
+  · cases hh : s.hist with
+    | some bs =>
+      dsimp only
+      cases x with
+      | bucket j =>
+        rw [count_imap_pair_fst _ _ Sub.bucket Sub.bucketPs (by intros; rfl) (by intros; rfl) hb (by intro i j h; cases h)]
+        simp
+      | bucketPs j =>
+        rw [count_imap_pair_snd _ _ Sub.bucket Sub.bucketPs (by intros; rfl) (by intros; rfl) hp (by intro i j h; cases h)]
+        simp
+      | _ =>
+        rw [count_imap_pair_other _ _ Sub.bucket Sub.bucketPs (by intros; rfl) (by intros; rfl) _
+          (by intro j; simp) (by intro j; simp)]
+        simp
+    | none =>
+      dsimp only
+      rw [List.map_cons, List.count_cons, count_plainTimer _ _ _ _ (by intro; rfl) (by intros; rfl)]
+      cases x <;> simp [timerSubs]
+  · cases x <;> simp [List.count_cons]
+  · cases x <;> simp [List.count_cons]
+  -- insights
+  · cases x <;> simp [List.count_cons]
+  · cases hh : s.hist with
+    | some bs =>
+      dsimp only
+      cases x with
+      | bucket j =>
+        rw [count_imap_pair_fst _ _ Sub.bucket Sub.bucketPs (by intros; rfl) (by intros; rfl) hb (by intro i j h; cases h)]
+        simp
+      | bucketPs j =>
+        rw [count_imap_pair_snd _ _ Sub.bucket Sub.bucketPs (by intros; rfl) (by intros; rfl) hp (by intro i j h; cases h)]
+        simp
+      | _ =>
+        rw [count_imap_pair_other _ _ Sub.bucket Sub.bucketPs (by intros; rfl) (by intros; rfl) _
+          (by intro j; simp) (by intro j; simp)]
+        simp
+    | none =>
+      dsimp only
+      rw [List.map_cons, List.count_cons, count_plainTimer _ _ _ _ (by intro; rfl) (by intros; rfl)]
+      cases x <;> simp [timerSubs]
+  · cases x <;> simp [List.count_cons]
+  · cases x <;> simp [List.count_cons]
+  -- metrics
+  · cases x <;> simp [List.count_cons]
+  · cases hh : s.hist with
+    | some bs =>
+      dsimp only
+      cases x with
+      | bucketPs j =>
+        rw [count_imap_pair_fst _ _ Sub.bucketPs Sub.bucket (by intros; rfl) (by intros; rfl) hp (by intro i j h; cases h)]
+        simp
+      | bucket j =>
+        rw [count_imap_pair_snd _ _ Sub.bucketPs Sub.bucket (by intros; rfl) (by intros; rfl) hb (by intro i j h; cases h)]
+        simp
+      | _ =>
+        rw [count_imap_pair_other _ _ Sub.bucketPs Sub.bucket (by intros; rfl) (by intros; rfl) _
+          (by intro j; simp) (by intro j; simp)]
+        simp
+    | none =>
+      dsimp only
+      rw [count_plainTimer _ _ _ _ (by intro y; split <;> rfl) (by intros; rfl)]
+      cases x <;> simp [nrInSummary, timerSubs]
+  · cases x <;> simp [List.count_cons]
+  · split <;> (cases x <;> simp [List.count_cons])
 
 theorem count_relayEmit (c : Cfg) (s : Series) (x : Sub) :
     ((relayEmit c s).map (·.sub)).count x = if enabledRelay s x then 1 else 0 := by
@@ -483,9 +627,28 @@ def StdBackend (c : Cfg) : Prop :=
   c.backend = .datadog ∨ c.backend = .influxdb ∨ c.backend = .graphite ∨ c.backend = .cloudwatch ∨
   c.backend = .stdout ∨ (c.backend = .otlp ∧ c.otlpHist = false)
 
-/-- which sub-metrics the property calls enabled, per backend family -/
+/-- which sub-metrics the property calls enabled, for every backend: the relay, New Relic (three flush
+types), otlp (timers as gauges or as histograms) and the statsd naming family -/
 def enabled (c : Cfg) (s : Series) (x : Sub) : Bool :=
-  if c.backend = .statsdaemon then enabledRelay s x else enabledStd c.mask s x
+  match c.backend with
+  | .statsdaemon => enabledRelay s x
+  | .newrelic => enabledNr c s x
+  | .otlp => enabledOtlp c s x
+  | _ => enabledStd c.mask s x
+
+theorem enabled_std (c : Cfg) (hc : StdBackend c) (s : Series) (x : Sub) : enabled c s x = enabledStd c.mask s x := by
+  unfold enabled
+  rcases hc with h | h | h | h | h | ⟨h, hg⟩ <;> rw [h] <;> dsimp only
+  simp [enabledOtlp, hg]
+
+theorem enabled_newrelic (c : Cfg) (hc : c.backend = .newrelic) (s : Series) (x : Sub) : enabled c s x = enabledNr c s x := by
+  unfold enabled; rw [hc]
+
+theorem enabled_otlp (c : Cfg) (hc : c.backend = .otlp) (s : Series) (x : Sub) : enabled c s x = enabledOtlp c s x := by
+  unfold enabled; rw [hc]
+
+theorem enabled_relay (c : Cfg) (hc : c.backend = .statsdaemon) (s : Series) (x : Sub) : enabled c s x = enabledRelay s x := by
+  unfold enabled; rw [hc]
 
 theorem key_plainTimer (s : Series) (dis : Sub → Bool) (mk : Sub → Record) (mkP : Nat → Pct → Record)
     (hmk : ∀ x, (mk x).key = s.key) (hmkP : ∀ j p, (mkP j p).key = s.key) :
@@ -499,80 +662,138 @@ theorem key_plainTimer (s : Series) (dis : Sub → Bool) (mk : Sub → Record) (
     exact hmk x
   · exact key_imap mkP s.key hmkP 0 s.pcts r hr
 
-theorem key_emit (c : Cfg) (hc : StdBackend c ∨ c.backend = .statsdaemon) (s : Series) :
-    ∀ r ∈ emit c s, r.key = s.key := by
+theorem key_ddEmit (c : Cfg) (s : Series) : ∀ r ∈ ddEmit c s, r.key = s.key := by
   intro r hr
-  unfold emit at hr
-  rcases hc with (h | h | h | h | h | ⟨h, hg⟩) | h <;> rw [h] at hr <;> dsimp only at hr
-  · unfold ddEmit at hr
-    split at hr
-    · simp [rec0] at hr; rcases hr with rfl | rfl <;> rfl
-    · split at hr
-      · exact key_imap _ s.key (by intros; rfl) 0 _ r hr
-      · exact key_plainTimer s _ _ _ (by intro; rfl) (by intros; rfl) r hr
-    · simp [rec0] at hr; subst hr; rfl
-    · simp [rec0] at hr; subst hr; rfl
-  · unfold influxEmit at hr
-    split at hr
-    · simp at hr; rcases hr with rfl | rfl <;> rfl
-    · split at hr
-      · exact key_imap _ s.key (by intros; rfl) 0 _ r hr
-      · exact key_plainTimer s _ _ _ (by intro; rfl) (by intros; rfl) r hr
-    · simp at hr; subst hr; rfl
-    · simp at hr; subst hr; rfl
-  · unfold graphiteEmit at hr
-    split at hr
-    · split at hr <;> (simp at hr; rcases hr with rfl | rfl <;> rfl)
-    · split at hr
-      · exact key_imap _ s.key (by intros; rfl) 0 _ r hr
-      · exact key_plainTimer s _ _ _ (by intro; rfl) (by intros; rfl) r hr
-    · simp at hr; subst hr; rfl
-    · simp at hr; subst hr; rfl
-  · unfold cwEmit at hr
-    split at hr
-    · simp [rec0] at hr; rcases hr with rfl | rfl <;> rfl
-    · split at hr
-      · exact key_imap _ s.key (by intros; rfl) 0 _ r hr
-      · exact key_plainTimer s _ _ _ (by intro; rfl) (by intros; rfl) r hr
-    · simp [rec0] at hr; subst hr; rfl
-    · simp [rec0] at hr; subst hr; rfl
-  · unfold stdoutEmit at hr
-    split at hr
-    · simp at hr; rcases hr with rfl | rfl <;> rfl
-    · split at hr
-      · exact key_imap _ s.key (by intros; rfl) 0 _ r hr
-      · exact key_plainTimer s _ _ _ (by intro; rfl) (by intros; rfl) r hr
-    · simp at hr; subst hr; rfl
-    · simp at hr; subst hr; rfl
-  · unfold otlpEmit at hr
-    split at hr
-    · simp at hr; rcases hr with rfl | rfl <;> rfl
-    · simp at hr; subst hr; rfl
-    · simp at hr; subst hr; rfl
-    · rw [if_neg (by simp [hg])] at hr
-      split at hr
-      · exact key_imap _ s.key (by intros; rfl) 0 _ r hr
-      · exact key_plainTimer s _ _ _ (by intro; rfl) (by intros; rfl) r hr
-  · unfold relayEmit at hr
-    split at hr
-    · split at hr
-      · simp at hr
-      · simp at hr; subst hr; rfl
+  unfold ddEmit at hr
+  split at hr
+  · simp [rec0] at hr; rcases hr with rfl | rfl <;> rfl
+  · split at hr
     · exact key_imap _ s.key (by intros; rfl) 0 _ r hr
-    · simp at hr; subst hr; rfl
-    · exact key_imap _ s.key (by intros; rfl) 0 _ r hr
+    · exact key_plainTimer s _ _ _ (by intro; rfl) (by intros; rfl) r hr
+  · simp [rec0] at hr; subst hr; rfl
+  · simp [rec0] at hr; subst hr; rfl
 
-theorem count_sub_emit (c : Cfg) (hc : StdBackend c ∨ c.backend = .statsdaemon) (s : Series) (x : Sub) :
+theorem key_influxEmit (c : Cfg) (s : Series) : ∀ r ∈ influxEmit c s, r.key = s.key := by
+  intro r hr
+  unfold influxEmit at hr
+  split at hr
+  · simp at hr; rcases hr with rfl | rfl <;> rfl
+  · split at hr
+    · exact key_imap _ s.key (by intros; rfl) 0 _ r hr
+    · exact key_plainTimer s _ _ _ (by intro; rfl) (by intros; rfl) r hr
+  · simp at hr; subst hr; rfl
+  · simp at hr; subst hr; rfl
+
+theorem key_graphiteEmit (c : Cfg) (s : Series) : ∀ r ∈ graphiteEmit c s, r.key = s.key := by
+  intro r hr
+  unfold graphiteEmit at hr
+  split at hr
+  · split at hr <;> (simp at hr; rcases hr with rfl | rfl <;> rfl)
+  · split at hr
+    · exact key_imap _ s.key (by intros; rfl) 0 _ r hr
+    · exact key_plainTimer s _ _ _ (by intro; rfl) (by intros; rfl) r hr
+  · simp at hr; subst hr; rfl
+  · simp at hr; subst hr; rfl
+
+theorem key_cwEmit (c : Cfg) (s : Series) : ∀ r ∈ cwEmit c s, r.key = s.key := by
+  intro r hr
+  unfold cwEmit at hr
+  split at hr
+  · simp [rec0] at hr; rcases hr with rfl | rfl <;> rfl
+  · split at hr
+    · exact key_imap _ s.key (by intros; rfl) 0 _ r hr
+    · exact key_plainTimer s _ _ _ (by intro; rfl) (by intros; rfl) r hr
+  · simp [rec0] at hr; subst hr; rfl
+  · simp [rec0] at hr; subst hr; rfl
+
+theorem key_stdoutEmit (c : Cfg) (s : Series) : ∀ r ∈ stdoutEmit c s, r.key = s.key := by
+  intro r hr
+  unfold stdoutEmit at hr
+  split at hr
+  · simp at hr; rcases hr with rfl | rfl <;> rfl
+  · split at hr
+    · exact key_imap _ s.key (by intros; rfl) 0 _ r hr
+    · exact key_plainTimer s _ _ _ (by intro; rfl) (by intros; rfl) r hr
+  · simp at hr; subst hr; rfl
+  · simp at hr; subst hr; rfl
+
+/-- otlp, both values of `otlpHist` -/
+theorem key_otlpEmit (c : Cfg) (s : Series) : ∀ r ∈ otlpEmit c s, r.key = s.key := by
+  intro r hr
+  unfold otlpEmit at hr
+  split at hr
+  · simp at hr; rcases hr with rfl | rfl <;> rfl
+  · simp at hr; subst hr; rfl
+  · simp at hr; subst hr; rfl
+  · split at hr
+    · simp at hr; subst hr; rfl
+    · split at hr
+      · exact key_imap _ s.key (by intros; rfl) 0 _ r hr
+      · exact key_plainTimer s _ _ _ (by intro; rfl) (by intros; rfl) r hr
+
+theorem key_relayEmit (c : Cfg) (s : Series) : ∀ r ∈ relayEmit c s, r.key = s.key := by
+  intro r hr
+  unfold relayEmit at hr
+  split at hr
+  · split at hr
+    · simp at hr
+    · simp at hr; subst hr; rfl
+  · exact key_imap _ s.key (by intros; rfl) 0 _ r hr
+  · simp at hr; subst hr; rfl
+  · exact key_imap _ s.key (by intros; rfl) 0 _ r hr
+
+/-- New Relic, all three flush types -/
+theorem key_nrEmit (c : Cfg) (s : Series) : ∀ r ∈ nrEmit c s, r.key = s.key := by
+  intro r hr
+  unfold nrEmit at hr
+  cases hm : c.nrMode <;> cases hk : s.kind <;> simp only [hm, hk] at hr
+  case infra.timer | insights.timer =>
+    cases hh : s.hist <;> simp only [hh] at hr
+    · rw [List.mem_cons] at hr
+      rcases hr with rfl | hr
+      · rfl
+      · exact key_plainTimer s _ _ _ (by intro; rfl) (by intros; rfl) r hr
+    · exact key_imap_pair _ _ s.key (by intros; rfl) (by intros; rfl) 0 _ r hr
+  case metrics.timer =>
+    cases hh : s.hist <;> simp only [hh] at hr
+    · exact key_plainTimer s _ _ _ (by intro y; split <;> rfl) (by intros; rfl) r hr
+    · exact key_imap_pair _ _ s.key (by intros; rfl) (by intros; rfl) 0 _ r hr
+  case metrics.set =>
+    rw [List.mem_singleton] at hr
+    subst hr
+    split <;> rfl
+  all_goals
+    simp only [List.mem_cons, List.not_mem_nil, or_false] at hr
+    first
+    | (subst hr; rfl)
+    | (rcases hr with rfl | rfl <;> rfl)
+
+/-- every record of a series carries the series' Go map key — for every configuration -/
+theorem key_emit (c : Cfg) (s : Series) : ∀ r ∈ emit c s, r.key = s.key := by
+  unfold emit
+  cases c.backend <;> dsimp only
+  · exact key_ddEmit c s
+  · exact key_influxEmit c s
+  · exact key_graphiteEmit c s
+  · exact key_nrEmit c s
+  · exact key_otlpEmit c s
+  · exact key_cwEmit c s
+  · exact key_relayEmit c s
+  · exact key_stdoutEmit c s
+
+/-- the identities of one series, for every configuration: each enabled sub-metric once, nothing else -/
+theorem count_sub_emit (c : Cfg) (s : Series) (x : Sub) :
     ((emit c s).map (·.sub)).count x = if enabled c s x then 1 else 0 := by
   unfold emit enabled
-  rcases hc with (h | h | h | h | h | ⟨h, hg⟩) | h <;> rw [h] <;> simp only [reduceCtorEq, if_false, if_true]
+  cases c.backend <;> dsimp only
   · exact count_ddEmit c s x
   · exact count_influxEmit c s x
   · exact count_graphiteEmit c s x
+  · exact count_nrEmit c s x
+  · exact count_otlpEmit c s x
   · exact count_cwEmit c s x
-  · exact count_stdoutEmit c s x
-  · exact count_otlpEmit c hg s x
   · exact count_relayEmit c s x
+  · exact count_stdoutEmit c s x
 
 theorem count_map_pair {rs : List Record} {k0 : Key} (h : ∀ r ∈ rs, r.key = k0) (k : Key) (x : Sub) :
     (ids rs).count (k, x) = if k0 = k then (rs.map (·.sub)).count x else 0 := by
@@ -587,9 +808,9 @@ theorem count_map_pair {rs : List Record} {k0 : Key} (h : ∀ r ∈ rs, r.key = 
     · subst e; simp
     · simp [e]
 
-theorem count_ids_emit (c : Cfg) (hc : StdBackend c ∨ c.backend = .statsdaemon) (s : Series) (k : Key) (x : Sub) :
+theorem count_ids_emit (c : Cfg) (s : Series) (k : Key) (x : Sub) :
     (ids (emit c s)).count (k, x) = if s.key = k ∧ enabled c s x then 1 else 0 := by
-  rw [count_map_pair (key_emit c hc s), count_sub_emit c hc]
+  rw [count_map_pair (key_emit c s), count_sub_emit c]
   by_cases e : s.key = k <;> simp [e]
 
 theorem ids_append (a b : List Record) : ids (a ++ b) = ids a ++ ids b := by simp [ids]
